@@ -116,6 +116,9 @@ def summarize(msg):
     try:
         if isinstance(msg, dict) and 'uid' in msg and 'cmd' not in msg:
             # a single thing published as such (e.g. an unschedule request)
+            if isinstance(msg.get('val'), dict) and 'mid' in msg['val']:
+                return {'things': [(msg.get('uid'),
+                                    'mid:%s' % msg['val']['mid'])]}
             return {'things': [(msg.get('uid'), msg.get('state'))]}
         if isinstance(msg, dict):
             cmd = msg.get('cmd')
